@@ -36,11 +36,9 @@ var errInvalidWebDIDURL = errors.New("URL does not represent a Web DID")
 // - https://localhost:3000/alice -> did:web:localhost%3A3000:alice
 // - https://nodeA/iam/5/ -> did:web:nodeA:iam:5
 func URLToDID(u url.URL) (*did.DID, error) {
-	path := u.Path
-	if u.RawPath != "" {
-		// In case the path contains encoded characters, RawPath must be used. But it's only populated in this case.
-		path = u.RawPath
-	}
+	// The escaped path must be used: characters that are percent-encoded in the URL (e.g. %2F, %20) must stay encoded in the DID.
+	// EscapedPath() returns RawPath if set (which it only is when it differs from the default encoding), otherwise it escapes Path.
+	path := u.EscapedPath()
 	path, _ = strings.CutSuffix(path, "/.well-known/did.json")
 	path, _ = strings.CutSuffix(path, "/did.json")
 	parts := strings.Split(path, "/")
